@@ -133,8 +133,10 @@ func (c *c05) Run(cs core.Case) core.Result {
 			preSnap = scen.Snapshot(dir)
 		}
 	}
+	p2SymlinkInputs = p.Seed%5 == 2
 	env, err := newP2Env(set, "out", g)
 	p2PreCreate = nil
+	p2SymlinkInputs = false
 	if env != nil {
 		defer env.close()
 	}
